@@ -167,6 +167,46 @@ func allStrings(n int, f func([]byte)) {
 	rec(0)
 }
 
+// msgDestAliasCases: one control message object receives several messages one after another (as a
+// caller of ReceiveControlMsg that keeps one MsgData does); what it handed out earlier - the payload
+// slices taken from it after each message, and the buffer its creator gave to NewMsgData - must still
+// read as the messages that were sent.
+func msgDestAliasCases(r *Recorder, pid string) {
+	// ... and what Deserialize handed out earlier stays what it was: the payload slices taken from the
+	// object after each Deserialize, and the buffer a caller gave to NewMsgData, are not scribbled
+	// over when the same object receives the next message
+	{
+		type held struct {
+			slice, want []byte
+			step        int
+		}
+		var helds []held
+		callerBuf := patterned(24, 90)
+		callerWant := append([]byte(nil), callerBuf...)
+		d2 := mailbox.NewMsgData(3, callerBuf)
+		for i, l := range []int{16, 16, 9, 20, 0, 5, 24, 24} {
+			want := patterned(l, 60+i)
+			wire, err := mailbox.NewMsgData(uint8(i), want).Serialize()
+			if err != nil || d2.Deserialize(wire) != nil {
+				continue
+			}
+			helds = append(helds, held{d2.Payload, append([]byte(nil), want...), i})
+			for _, h := range helds {
+				if !bytes.Equal(h.slice, h.want) {
+					r.Violate(pid+"/msgdata-earlier-payload-overwritten", fmt.Sprintf("one MsgData object received message #%d (%d bytes); the payload it had handed out for message #%d now reads %s, it was %s",
+						i+1, l, h.step+1, hx(h.slice[:min(8, len(h.slice))]), hx(h.want[:min(8, len(h.want))])), map[string]int{"step": i, "earlier": h.step})
+					break
+				}
+			}
+			if !bytes.Equal(callerBuf, callerWant) {
+				r.Violate(pid+"/msgdata-earlier-payload-overwritten", fmt.Sprintf("the buffer given to NewMsgData was overwritten when the object received message #%d", i+1), map[string]int{"step": i})
+				callerWant = append([]byte(nil), callerBuf...)
+			}
+			r.Case(fmt.Sprintf("msg-dest-alias:%d", i), true, "msg-dest-reuse")
+		}
+	}
+}
+
 func TestC19(t *testing.T) {
 	r := NewRecorder(t, "C19")
 	defer r.Close(t)
@@ -274,39 +314,7 @@ func TestC19(t *testing.T) {
 		}
 		r.Case(fmt.Sprintf("msg-dest-reuse:%d:%d", i, l), true, "msg-dest-reuse")
 	}
-	// ... and what Deserialize handed out earlier stays what it was: the payload slices taken from the
-	// object after each Deserialize, and the buffer a caller gave to NewMsgData, are not scribbled
-	// over when the same object receives the next message
-	{
-		type held struct {
-			slice, want []byte
-			step        int
-		}
-		var helds []held
-		callerBuf := patterned(24, 90)
-		callerWant := append([]byte(nil), callerBuf...)
-		d2 := mailbox.NewMsgData(3, callerBuf)
-		for i, l := range []int{16, 16, 9, 20, 0, 5, 24, 24} {
-			want := patterned(l, 60+i)
-			wire, err := mailbox.NewMsgData(uint8(i), want).Serialize()
-			if err != nil || d2.Deserialize(wire) != nil {
-				continue
-			}
-			helds = append(helds, held{d2.Payload, append([]byte(nil), want...), i})
-			for _, h := range helds {
-				if !bytes.Equal(h.slice, h.want) {
-					r.Violate("C19/msgdata-earlier-payload-overwritten", fmt.Sprintf("one MsgData object received message #%d (%d bytes); the payload it had handed out for message #%d now reads %s, it was %s",
-						i+1, l, h.step+1, hx(h.slice[:min(8, len(h.slice))]), hx(h.want[:min(8, len(h.want))])), map[string]int{"step": i, "earlier": h.step})
-					break
-				}
-			}
-			if !bytes.Equal(callerBuf, callerWant) {
-				r.Violate("C19/msgdata-earlier-payload-overwritten", fmt.Sprintf("the buffer given to NewMsgData was overwritten when the object received message #%d", i+1), map[string]int{"step": i})
-				callerWant = append([]byte(nil), callerBuf...)
-			}
-			r.Case(fmt.Sprintf("msg-dest-alias:%d", i), true, "msg-dest-reuse")
-		}
-	}
+	msgDestAliasCases(r, "C19")
 	// every Serialize returns a buffer of its own: a caller (or a transport that masks in place) may
 	// overwrite what it got without changing what the next Serialize of an equal message returns
 	{
